@@ -1345,6 +1345,68 @@ def _has_zero_axis(d):
     return 0 in tuple(leaf_tsp(d)[0])
 
 
+
+# --------------------------------------------------------------------- element indexing (basic indices)
+def index_cases(rng, tier):
+    cs = C.CaseSet('eindex', ['C20.Syntax', 'C20.Model', 'C20.Derived', 'C20.Indexing', 'C20.Corr'], 'checkG', 'caseG')
+    n = 350 if tier == 'quick' else 2500
+    ctx = Ctx()
+    for _ in range(n):
+        t = gen_tsp(rng, shape=[rng.choice([1, 2, 3, 4]) for _ in range(rng.choice([0, 1, 1, 2, 2, 3]))])
+        if t[1] in ('U', 'O'):
+            continue
+        use_discr = rng.random() < 0.35 and t[2][0] != 'array'
+        try:
+            if use_discr:
+                p = gen_part(rng, len(t[0]))
+                t = (tuple(len(g) for g in p[1]), t[1], t[2])
+                oS = build(('discr', p, t), ctx)
+            else:
+                oS = build(('tensor', t), ctx)
+        except Exception:
+            continue
+        shape = tuple(t[0])
+        size = int(np.prod(shape)) if shape else 1
+        if t[1] == 'bool':
+            vals = np.array([(i * 7) % 3 == 0 for i in range(size)]).reshape(shape)
+        else:
+            vals = (np.arange(size, dtype=float) + 1).reshape(shape)
+        x = oS.element(vals.astype(oS.dtype))
+        nidx = min(rng.choice([0, 1, 1, 2, 2, 3]), len(shape)) if rng.random() < 0.92 else len(shape) + 1
+        idx = []
+        for k in range(nidx):
+            m = shape[k] if k < len(shape) else 2
+            idx.append(gen_slice(rng, m) if rng.random() < 0.5 else
+                       gen_int_index(rng, m) if rng.random() < 0.15 else rng.randrange(-m, m))
+        idx = tuple(idx)
+        pyidx = idx[0] if (len(idx) == 1 and rng.random() < 0.5) else idx
+        try:
+            r = x[pyidx]
+            if isinstance(r, odl_element_types()):
+                sp = r.space
+                out = '(Ok (GTens %s %s))' % (coq_tsp(describe_tsp(sp, ctx)),
+                                              C.qs(np.asarray(r).real.astype(float).ravel().tolist()))
+            else:
+                out = '(Ok (GScalar %s))' % C.q(float(np.real(r)))
+        except IndexError:
+            out = 'ErrIndex'
+        except ValueError:
+            out = 'ErrValue'
+        except Exception:
+            out = 'ErrType'
+        data = np.asarray(x).real.astype(float).ravel().tolist()
+        term = ('{| g_t := %s; g_data := %s; g_idx := %s; g_out := %s |}'
+                % (coq_tsp(t), C.qs(data), C.lst([coq_idx1(i) for i in idx]), out))
+        cs.add(term, {'space': ('discr' if use_discr else 'tensor', repr(t)), 'idx': repr(pyidx), 'out': out[:160]},
+               (repr(t), repr(idx)))
+    return cs
+
+
+def odl_element_types():
+    import odl
+    return (odl.set.space.LinearSpaceElement,)
+
+
 def variant_cases(v):
     cs = C.CaseSet('variants', ['C20.Syntax', 'C20.Model', 'C20.Corr'], 'checkV', 'caseV')
     cs.add('{| cv_v := %s |}' % coq_variants(v), {'variants': v}, None)
@@ -1355,7 +1417,7 @@ def correspondence(rng, tier):
     v = measure_variants()
     dv = measure_dvariants()
     return [eq_cases(rng, tier, v), in_cases(rng, tier, v), derived_cases(rng, tier, dv), element_cases(rng, tier, v),
-            variant_cases(v)]
+            index_cases(rng, tier), variant_cases(v)]
 
 
 # --------------------------------------------------------------------- probes (property oracles, no model)
